@@ -16,8 +16,27 @@
 #include <functional>
 #include <map>
 #include <mutex>
+#include <pthread.h>
+
+#ifdef VERIF_SCHED
+// under the controlled scheduler pthread_mutex_lock is interposed (it is a schedule point);
+// the allocator's own lock must not be one
+extern "C" int __real_pthread_mutex_lock(pthread_mutex_t *);
+extern "C" int __real_pthread_mutex_unlock(pthread_mutex_t *);
+#endif
 
 namespace galloc {
+
+struct RawMutex {
+    pthread_mutex_t m = PTHREAD_MUTEX_INITIALIZER;
+#ifdef VERIF_SCHED
+    void lock() { __real_pthread_mutex_lock(&m); }
+    void unlock() { __real_pthread_mutex_unlock(&m); }
+#else
+    void lock() { pthread_mutex_lock(&m); }
+    void unlock() { pthread_mutex_unlock(&m); }
+#endif
+};
 
 static const size_t CANARY = 64;
 static const size_t CEILING = 256u << 20;
@@ -37,7 +56,7 @@ struct State {
     std::function<void(void *, size_t)> on_release;
     // real (process) mutex: under the controlled scheduler only one thread runs at a
     // time, and no schedule point lies inside these critical sections.
-    std::mutex mu;
+    RawMutex mu;
 };
 
 inline State &S() {
@@ -79,7 +98,7 @@ inline void *g_acquire(struct aws_allocator *, size_t size) {
     memset(raw + CANARY, 0xA5, size);
     set_canaries(raw, size);
     State &s = S();
-    std::lock_guard<std::mutex> g(s.mu);
+    std::lock_guard<RawMutex> g(s.mu);
     s.live[(uintptr_t)(raw + CANARY)] = Block{size, ++s.serial};
     s.acquires++;
     s.live_bytes += size;
@@ -91,7 +110,7 @@ inline void g_release(struct aws_allocator *, void *ptr) {
     State &s = S();
     size_t size;
     {
-        std::lock_guard<std::mutex> g(s.mu);
+        std::lock_guard<RawMutex> g(s.mu);
         auto it = s.live.find((uintptr_t)ptr);
         if (it == s.live.end()) {
             fprintf(stderr, "galloc: release of %p which is not a live block (double free / foreign pointer)\n", ptr);
@@ -112,13 +131,13 @@ inline void g_release(struct aws_allocator *, void *ptr) {
 inline void *g_realloc(struct aws_allocator *a, void *old, size_t oldsize, size_t newsize) {
     State &s = S();
     {
-        std::lock_guard<std::mutex> g(s.mu);
+        std::lock_guard<RawMutex> g(s.mu);
         s.reallocs++;
     }
     if (!old) return g_acquire(a, newsize);
     size_t real_old;
     {
-        std::lock_guard<std::mutex> g(s.mu);
+        std::lock_guard<RawMutex> g(s.mu);
         auto it = s.live.find((uintptr_t)old);
         if (it == s.live.end()) {
             fprintf(stderr, "galloc: realloc of %p which is not a live block\n", old);
@@ -150,15 +169,15 @@ inline struct aws_allocator *basic() {
 }
 
 inline size_t live_blocks() {
-    std::lock_guard<std::mutex> g(S().mu);
+    std::lock_guard<RawMutex> g(S().mu);
     return S().live.size();
 }
 inline size_t live_bytes() {
-    std::lock_guard<std::mutex> g(S().mu);
+    std::lock_guard<RawMutex> g(S().mu);
     return S().live_bytes;
 }
 inline bool is_live(const void *p, size_t *size = nullptr) {
-    std::lock_guard<std::mutex> g(S().mu);
+    std::lock_guard<RawMutex> g(S().mu);
     auto it = S().live.find((uintptr_t)p);
     if (it == S().live.end()) return false;
     if (size) *size = it->second.size;
@@ -166,7 +185,7 @@ inline bool is_live(const void *p, size_t *size = nullptr) {
 }
 // block containing address p (payload range), if any
 inline bool containing(const void *p, uintptr_t *base, size_t *size) {
-    std::lock_guard<std::mutex> g(S().mu);
+    std::lock_guard<RawMutex> g(S().mu);
     auto &m = S().live;
     auto it = m.upper_bound((uintptr_t)p);
     if (it == m.begin()) return false;
@@ -181,7 +200,7 @@ inline bool containing(const void *p, uintptr_t *base, size_t *size) {
 // verifies every live block's canaries; returns false (and a message) on damage
 inline bool check_all(const char **msg = nullptr) {
     State &s = S();
-    std::lock_guard<std::mutex> g(s.mu);
+    std::lock_guard<RawMutex> g(s.mu);
     for (auto &kv : s.live) {
         const unsigned char *raw = (const unsigned char *)kv.first - CANARY;
         if (!check_canaries(raw, kv.second.size)) mark_corrupt("canary damaged", (void *)kv.first, kv.second.size);
@@ -192,7 +211,7 @@ inline bool check_all(const char **msg = nullptr) {
 // start of a case: forget everything (blocks still live from a failed earlier case are abandoned)
 inline void reset() {
     State &s = S();
-    std::lock_guard<std::mutex> g(s.mu);
+    std::lock_guard<RawMutex> g(s.mu);
     s.live.clear();
     s.live_bytes = 0;
     s.corrupt = false;
